@@ -5,6 +5,7 @@ import (
 	"fmt"
 	"math/rand"
 	"os"
+	"os/exec"
 	"path/filepath"
 	"sort"
 	"strings"
@@ -248,6 +249,8 @@ func c02CLI(c *fw.Case, env *fw.Env, o *fw.Obs, p *c02Params) *fw.Obs {
 		// the branch's file is a symbolic link; edits go to its target, as an editor writing in place does
 		os.WriteFile(filepath.Join(root, "real.csv"), nil, 0644)
 		os.Symlink(filepath.Join(root, "real.csv"), fp)
+		// the link itself is old (its own mtime never changes when the target is edited)
+		exec.Command("touch", "-h", "-d", "2017-07-14 02:40:00", fp).Run()
 		class += "/symlink"
 	}
 	os.WriteFile(fp, gen.ToCSV(t, 0), 0644)
